@@ -159,6 +159,8 @@ type minimiser struct {
 	best map[string]pending
 }
 
+var sampledForms sync.Map // one evidence sample per accepted syntactic form
+
 var rtMin = &minimiser{best: map[string]pending{}}
 
 func (m *minimiser) offer(key, what string, w any, idx, size int, tie string) {
@@ -195,10 +197,11 @@ func checkString(r *lib.Run, idx int, s string, counts *[2]int64) {
 		}
 		counts[0]++
 		r.Case("rt|"+s+"|"+ctx.Cur+"|"+ctx.Subrepo, true)
-		if r.WantSample() && len(s) >= 5 {
-			r.Sample(map[string]string{"input": s, "current_package": ctx.Cur, "parsed": show(l), "printed": l.String()})
+		f := form(s)
+		if _, seen := sampledForms.LoadOrStore(f, true); !seen && len(s) >= 4 {
+			r.Sample(map[string]string{"form": f, "input": s, "current_package": ctx.Cur, "parsed": show(l), "printed": l.String()})
 		}
-		r.ObsDistinct("accepted_forms", form(s))
+		r.ObsDistinct("accepted_forms", f)
 		judge(r, idx, "TryParseBuildLabel", s, form(s), ctx, l, func(p string) (core.BuildLabel, error) {
 			// the printed form is absolute and carries its own subrepo: re-read it outside any subrepo
 			return core.TryParseBuildLabel(p, ctx.Cur, "")
@@ -408,6 +411,7 @@ type pairWitness struct {
 }
 
 var newStateMu sync.Mutex
+var expStates = map[string]*core.BuildState{}
 var freeStates []*core.BuildState // plain states are reused with a fresh graph (each one owns a goroutine)
 
 var labelNames = []string{"x", "y", "_x#tag"}
@@ -454,9 +458,13 @@ func checkPattern(r *lib.Run, idx int, pat core.BuildLabel, pkgs []string) {
 	}()
 	var expState *core.BuildState
 	if kind == "dots" && pat.PackageName != "" {
-		config := core.DefaultConfiguration()
-		config.Parse.ExperimentalDir = []string{pat.PackageName}
-		expState = core.NewBuildState(config)
+		// only CanSee is asked of these states (no graph), so one per directory can be shared
+		if expState = expStates[pat.PackageName]; expState == nil {
+			config := core.DefaultConfiguration()
+			config.Parse.ExperimentalDir = []string{pat.PackageName}
+			expState = core.NewBuildState(config)
+			expStates[pat.PackageName] = expState
+		}
 	}
 	newStateMu.Unlock()
 	// the dependency used by the visibility sites lives in a package outside the pool
